@@ -318,7 +318,7 @@ def run(ctx, rep):
     from rules import C03
     from rules.C10 import borrow
     n = borrow(rep, ctx, C03, lambda o: o.rule == "R-ORDER" and re.search(r"/R-ORDER/(13|13b|14)/", o.key), "C02.e")
-    rep.floor("C02.e", "borrowed obligations", n, 6)
+    rep.floor("C02.e", "borrowed obligations", n, 4)
 
 
 def index_rewrite_rule(ctx, rep, R):
